@@ -21,7 +21,8 @@
 **
 ** Oracle per case: see judge().  Allocator interposition: lib/vf_alloc.h.
 **
-** Parameters: part=own|static|embedded|views|stackops|all   replay="src=.. type=.. var=.. op=.."
+** Parameters: part=own|static|embedded|views|stackops|recycle|all   replay="src=.. type=.. var=.. op=.."
+**             part=recycle force=0|1: run-time types of different sizes following one another at one address (see there)
 */
 
 #include "vf_alloc.h"
@@ -1498,6 +1499,352 @@ static void enumerate_stackops(void) {
   }
 }
 
+/* ---- part=recycle: run-time types of different sizes that follow one another at ONE address ------------------------------
+**
+** "size(type) bytes of every object are usable" must hold for the type the object is made of NOW: a run-time type can be
+** deleted and the allocator can hand its block to the next new(Type, ...), so an address that meant "8 bytes" a moment
+** ago means "512 bytes" now.  Histories:
+**   chain    T1 (size s1) is created, objects of it are made through entry point e1 (all=1: then through every other entry
+**            point), released, T1 is deleted; T2 (s2 != s1) is created ON T1's BLOCK, its first object comes from entry
+**            point e2, then one object from every other entry point; all judged, released, T2 deleted; optionally a third
+**            type T3 (s3 != s2) on the same block.
+**   live     A and B are both alive (objects of A, then of B); A is deleted and C (another size) takes its block while B
+**            lives on; objects in the order C | B C | C B C.
+**   swap     A and B are deleted (either order) and C, D are created on their blocks, C with B's size and D with A's
+**            (LIFO and FIFO handing-back); the last object before came from A or B, the first one after from C or D.
+** Type kinds: plain (size given to new(Type)), size reported by a Size instance (the recorded size says something else),
+** with a New instance (constructor fills the object, destructor).  The type objects themselves are made with new_raw /
+** new / new_root.  Entry points: alloc_raw alloc alloc_root new_raw new new_root copy (of a stack-resident original) and a
+** stack-resident object (header written by header_init, never through the allocator).
+** Per object: type_of is the type it was made of, heap/stack tag, registered with the collector iff the entry point says
+** so, the byte count the library REQUESTED for its block (allocator interposition) covers header + size(type), all
+** size(type) bytes written and read back (ASan judges the accesses as well).
+** A block is handed back by the interposer's stash (force=1, default) or left to the allocator (force=0); a history in
+** which no new type received the address of a deleted one did not reach the case: judged all the same, counted separately
+** (recycle_not_reached), never as an execution.
+*/
+
+enum { RE_ALLOC_RAW, RE_ALLOC, RE_ALLOC_ROOT, RE_NEW_RAW, RE_NEW, RE_NEW_ROOT, RE_COPY, RE_STACK, NRE };
+static const char* re_name[NRE] = { "alloc_raw", "alloc", "alloc_root", "new_raw", "new", "new_root", "copy", "stack" };
+#define NRSZ 5
+static const size_t RSZ[NRSZ] = { 0, 1, 8, 24, 512 };
+enum { RK_PLAIN, RK_SIZEINST, RK_NEW, NRK };
+static const char* rk_name[NRK] = { "plain", "size-instance", "constructor" };
+
+static size_t rsz_0(void) { return 0; }    static size_t rsz_1(void) { return 1; }   static size_t rsz_8(void) { return 8; }
+static size_t rsz_24(void) { return 24; }  static size_t rsz_512(void) { return 512; }
+static var RE_SZI[NRSZ][4 + 1];            /* Size instances, one per size */
+static var RE_NWI[4 + 2];                  /* New instance */
+static var re_size_inst[NRSZ], re_new_inst;
+static const char* const re_tnames[4] = { "RcA", "RcB", "RcC", "RcD" };
+static size_t re_expect;                   /* size of the type whose object is being made (for the constructor) */
+static uint64_t re_ctor, re_dtor, re_ctor_skipped;
+static uint64_t re_cases, re_reached, re_not_reached, re_objects, re_copy_unavailable, re_req_unknown, re_same_addr_types;
+static int re_force = 1;
+static var re_small_type; static uint64_t re_copy_skipped_after_violation;
+
+static void RE_New(var self, var args) {
+  size_t have;
+  re_ctor++;
+  /* a constructor fills its object; into a block that is too small it would destroy the heap before the oracle speaks */
+  if (header(self)->alloc == (var)AllocHeap && (!al_requested(header(self), &have) || have < sizeof(struct Header) + re_expect)) { re_ctor_skipped++; return; }
+  memset(self, 0xA5, re_expect);
+}
+static void RE_Del(var self) { re_dtor++; }
+
+static void re_setup(void) {
+  static size_t (*const fns[NRSZ])(void) = { rsz_0, rsz_1, rsz_8, rsz_24, rsz_512 };
+  for (int i = 0; i < NRSZ; i++) {
+    struct Size* b = header_init(RE_SZI[i], Size, AllocStatic);
+    b->size = fns[i]; re_size_inst[i] = b;
+  }
+  struct New* n = header_init(RE_NWI, New, AllocStatic);
+  n->construct_with = RE_New; n->destruct = RE_Del; re_new_inst = n;
+}
+
+/* mg: 0 new_raw, 1 new, 2 new_root */
+static var re_mktype(const char* nm, int kind, int si, int mg) {
+  var items[4]; int n = 0;
+  items[n++] = $S((char*)nm);
+  /* with a Size instance the recorded size is a different number: the instance decides what size(type) is */
+  items[n++] = $I((int64_t)(kind == RK_SIZEINST ? RSZ[(si + 2) % NRSZ] : RSZ[si]));
+  if (kind == RK_SIZEINST) items[n++] = re_size_inst[si];
+  if (kind == RK_NEW) items[n++] = re_new_inst;
+  items[n] = Terminal;
+  var args = $(Tuple, items);
+  re_small_type = NULL;
+  return mg == 0 ? new_raw_with(Type, args) : mg == 1 ? new_with(Type, args) : new_root_with(Type, args);
+}
+static void re_deltype(var T, int mg) { if (mg == 0) del_raw(T); else if (mg == 1) del(T); else del_root(T); }
+
+struct reobj { var o; int ep; };
+static char re_stackbuf[2][sizeof(struct Header) + 512 + 16];
+
+static var re_make(var T, int ep) {
+  switch (ep) {
+    case RE_ALLOC_RAW:  return alloc_raw(T);
+    case RE_ALLOC:      return alloc(T);
+    case RE_ALLOC_ROOT: return alloc_root(T);
+    case RE_NEW_RAW:    return new_raw_with(T, tuple());
+    case RE_NEW:        return new_with(T, tuple());
+    case RE_NEW_ROOT:   return new_root_with(T, tuple());
+    case RE_COPY:       memset(re_stackbuf[0], 0, sizeof re_stackbuf[0]); return copy(header_init(re_stackbuf[0], T, AllocStack));
+    default:            memset(re_stackbuf[1], 0, sizeof re_stackbuf[1]); return header_init(re_stackbuf[1], T, AllocStack);
+  }
+}
+static void re_release(var o, int ep) {
+  switch (ep) {
+    case RE_ALLOC_RAW:  dealloc_raw(o); break;
+    case RE_ALLOC:      del(o); break;           /* registered with the collector: del unregisters (dealloc leaves the entry: recorded finding) */
+    case RE_ALLOC_ROOT: del_root(o); break;
+    case RE_NEW_RAW:    del_raw(o); break;
+    case RE_NEW:        del(o); break;
+    case RE_NEW_ROOT:   del_root(o); break;
+    case RE_COPY:       del(o); break;
+    default: break;
+  }
+}
+
+static char re_lab[200];
+static const char* RELAB(int ep, int first, const char* dir, const char* symptom) {
+  snprintf(re_lab, sizeof re_lab, "%s/type-on-recycled-address/%s/%s/%s/%s", ep == RE_STACK ? "stack" : "heap", re_name[ep], first ? "first-object-of-the-new-type" : "later-object", dir, symptom);
+  return re_lab;
+}
+
+/* make one object of T (size s) through ep and judge it; returns the object (NULL: none) */
+static var re_obj(var T, size_t s, int ep, int first, const char* dir) {
+  volatile var ov = NULL;
+  re_expect = s;
+  /* copy() of an object without Assign is a memcpy of size(type) bytes; for size 0 the library refuses with TypeError after
+     it has allocated the target, which stays behind as collector garbage of a type that is about to be deleted: not executed */
+  if (ep == RE_COPY && s == 0) { re_copy_unavailable++; return NULL; }
+  /* a block of this type was already found too small: copy() would memcpy size(type) bytes over the end of the next one and
+     take the heap (and the rest of the exploration) with it - the violation is reported, the consequence is not executed */
+  if (ep == RE_COPY && re_small_type == T) { re_copy_skipped_after_violation++; return NULL; }
+  var e = VF_CATCH(ov = re_make(T, ep));
+  var o = ov;
+  if (ep == RE_COPY && (e || !o)) {
+    vf_violation(RELAB(ep, first, dir, "copy-raises"), NULL, "copy of a stack-resident object of a %zu-byte run-time type raised %s", s, vf_exc_name(e));
+    return NULL;
+  }
+  if (e || !o) { vf_violation(RELAB(ep, first, dir, "allocation-raises"), NULL, "%s of a %zu-byte run-time type raised %s", re_name[ep], s, vf_exc_name(e)); return NULL; }
+  vf.evaluations++; vf.transitions++; re_objects++;
+  volatile var ty = NULL;
+  e = VF_CATCH(ty = type_of(o));
+  if (e || ty != T) { vf_violation(RELAB(ep, first, dir, "wrong-type"), NULL, "type_of(object) is not the type it was made of (%s)", e ? vf_exc_name(e) : "another type"); return o; }
+  struct Header* h = header(o);
+#if CELLO_ALLOC_CHECK == 1
+  if ((intptr_t)h->alloc != (ep == RE_STACK ? AllocStack : AllocHeap)) { vf_violation(RELAB(ep, first, dir, "wrong-alloc-class"), NULL, "header allocation class is %s", clsname((int)(intptr_t)h->alloc)); return o; }
+#endif
+  volatile size_t rs = 0;
+  e = VF_CATCH(rs = size(T));
+  if (e || rs != s) { vf_violation(RELAB(ep, first, dir, "size-of-type-wrong"), NULL, "size(type) = %zu (%s), the type was created with %zu", (size_t)rs, vf_exc_name(e), s); return o; }
+  if (ep != RE_STACK) {
+    size_t req = 0, need = sizeof(struct Header) + s;
+    if (al_requested(h, &req)) {
+      if (req < need) {
+        vf_violation(RELAB(ep, first, dir, "block-smaller-than-size-of-type"), NULL,
+          "the library requested %zu bytes for an object of a type whose size is %zu (header %zu + %zu = %zu needed): size(type) bytes are not usable", req, s, sizeof(struct Header), s, need);
+        re_small_type = T;
+        return o;                                  /* not written to: the write would run over the end of the block */
+      }
+    } else {
+      re_req_unknown++;          /* the block did not come from malloc/calloc/realloc as far as the interposer saw: the sanitizer build judges the accesses */
+    }
+  }
+  /* all size(type) bytes: write a pattern, read it back */
+  volatile unsigned char* b = o; int bad = 0;
+  for (size_t i = 0; i < s; i++) b[i] = (unsigned char)(i * 7 + 1);
+  for (size_t i = 0; i < s; i++) if (b[i] != (unsigned char)(i * 7 + 1)) bad = 1;
+  if (bad) vf_violation(RELAB(ep, first, dir, "bytes-do-not-hold"), NULL, "a pattern written over the %zu bytes of the object does not read back", s);
+  if (header(o)->type != T) vf_violation(RELAB(ep, first, dir, "header-overwritten"), NULL, "writing the object's own bytes changed its header");
+#ifndef CELLO_NGC
+  if (ep != RE_STACK) {
+    int want = !(ep == RE_ALLOC_RAW || ep == RE_NEW_RAW);
+    volatile bool reg = false;
+    e = VF_CATCH(reg = mem(current(GC), o));
+    if (e || (int)reg != want) vf_violation(RELAB(ep, first, dir, reg ? "raw-object-registered" : "not-registered-with-collector"), NULL, "mem(current(GC), obj) = %d (%s)", (int)reg, vf_exc_name(e));
+  }
+#endif
+  { char k[96]; snprintf(k, sizeof k, "re/%s/%d/%s", re_name[ep], first, dir); if (vf_set_put(&seen_outcomes, k, 1) < 0) vf.outcomes++; }
+  return o;
+}
+
+/* objects of T: first through ep, then (all) through every other entry point; everything released afterwards */
+static void re_objects_of(var T, size_t s, int ep, int all, int first, const char* dir, int release_backwards) {
+  struct reobj live[NRE]; int nl = 0;
+  for (int k = 0; k < (all ? NRE : 1); k++) {
+    int e = (ep + k) % NRE;
+    var o = re_obj(T, s, e, first && k == 0, dir);
+    if (o) { live[nl].o = o; live[nl].ep = e; nl++; }
+  }
+  for (int k = 0; k < nl; k++) {
+    int i = release_backwards ? nl - 1 - k : k;
+    var e = VF_CATCH(re_release(live[i].o, live[i].ep));
+    if (e) vf_violation(RELAB(live[i].ep, 0, dir, "release-raises"), NULL, "releasing the object raised %s", vf_exc_name(e));
+  }
+}
+
+static int re_filter(void) { return vf.replay && strcmp(vf.replay, vf_cur) != 0; }
+
+static void re_count(int reached, const char* key) {
+  re_cases++;
+  if (reached) { re_reached++; vf.executions++; if (vf_set_put(&seen_nontrivial, key, 1) < 0) vf.nontrivial++; if (vf_want_sample()) vf_sample("%s", vf_cur); }
+  else re_not_reached++;
+}
+
+static const char* re_dir(size_t from, size_t to) { return to > from ? "larger-than-the-type-before" : to < from ? "smaller-than-the-type-before" : "same-size"; }
+
+/* chain of nt types on one block */
+static void recycle_chain(int kind, int mg, int nt, const int* si, const int* ep, int all) {
+  if (nt == 2) vf_set_cur("typerecycle chain kind=%s mg=%d sizes=%zu,%zu ep=%s,%s all=%d", rk_name[kind], mg, RSZ[si[0]], RSZ[si[1]], re_name[ep[0]], re_name[ep[1]], all);
+  else vf_set_cur("typerecycle chain kind=%s mg=%d sizes=%zu,%zu,%zu ep=%s,%s,%s all=%d", rk_name[kind], mg, RSZ[si[0]], RSZ[si[1]], RSZ[si[2]], re_name[ep[0]], re_name[ep[1]], re_name[ep[2]], all);
+  if (re_filter()) return;
+  vf_watchdog(60);
+  uintptr_t prev = 0; int reused = 0;
+  for (int i = 0; i < nt; i++) {
+    volatile var Tv = NULL;
+    var e = VF_CATCH(Tv = re_mktype(re_tnames[i], kind, si[i], mg));
+    if (e || !Tv) { vf_violation("heap/type-on-recycled-address/new-type-raises", NULL, "new(Type, ...) raised %s", vf_exc_name(e)); break; }
+    AUX = Tv;
+    int same = i > 0 && (uintptr_t)Tv == prev;
+    if (same) { reused++; re_same_addr_types++; }
+    re_objects_of(Tv, RSZ[si[i]], ep[i], all || i == nt - 1, i > 0 && same, i == 0 ? "first-type" : same ? re_dir(RSZ[si[i - 1]], RSZ[si[i]]) : "address-not-reused", (i + mg) & 1);
+    prev = (uintptr_t)Tv;
+    if (re_force && i < nt - 1) al_arm_reuse(header(Tv));
+    AUX = NULL;
+    e = VF_CATCH(re_deltype(Tv, mg));
+    if (e) vf_violation("heap/type-on-recycled-address/del-type-raises", NULL, "deleting the run-time type raised %s", vf_exc_name(e));
+  }
+  al_reuse_reset();
+  char key[128]; snprintf(key, sizeof key, "re/chain%d/%s/%s/%s/%s/%d", nt, rk_name[kind], re_name[ep[0]], re_name[ep[1]], re_dir(RSZ[si[0]], RSZ[si[1]]), nt > 2 ? ep[2] : -1);
+  re_count(reused == nt - 1, key);
+}
+
+/* A and B alive; A deleted, C on A's block while B lives on; objects in the order pat 0: C | 1: B C | 2: C B C */
+static void recycle_live(int kind, int sa, int sb, int sc, int e1, int e3, int pat) {
+  vf_set_cur("typerecycle live kind=%s sizes=%zu,%zu,%zu ep=%s,%s order=%d", rk_name[kind], RSZ[sa], RSZ[sb], RSZ[sc], re_name[e1], re_name[e3], pat);
+  if (re_filter()) return;
+  vf_watchdog(60);
+  var A = re_mktype(re_tnames[0], kind, sa, 0); AUX = A;
+  var B = re_mktype(re_tnames[1], kind, sb, 0); AUX2 = B;
+  re_objects_of(B, RSZ[sb], e1, 0, 0, "first-type", 0);
+  re_objects_of(A, RSZ[sa], e1, 0, 0, "first-type", 0);          /* the last object before the recycle is one of A */
+  uintptr_t pa = (uintptr_t)A;
+  if (re_force) al_arm_reuse(header(A));
+  AUX = NULL; del_raw(A);
+  var C = re_mktype(re_tnames[2], kind, sc, 0); AUX = C;
+  int same = (uintptr_t)C == pa;
+  if (same) re_same_addr_types++;
+  const char* dir = same ? re_dir(RSZ[sa], RSZ[sc]) : "address-not-reused";
+  if (pat == 1) re_objects_of(B, RSZ[sb], (e3 + 1) % NRE, 0, 0, "live-neighbour-type", 0);
+  re_objects_of(C, RSZ[sc], e3, pat != 1, same && pat != 1, dir, 1);
+  if (pat == 2) { re_objects_of(B, RSZ[sb], e1, 0, 0, "live-neighbour-type", 0); re_objects_of(C, RSZ[sc], (e3 + 3) % NRE, 0, 0, dir, 0); }
+  AUX = NULL; AUX2 = NULL;
+  del_raw(C); del_raw(B);
+  al_reuse_reset();
+  char key[128]; snprintf(key, sizeof key, "re/live/%s/%s/%s/%s/%d", rk_name[kind], re_name[e1], re_name[e3], re_dir(RSZ[sa], RSZ[sc]), pat);
+  re_count(same, key);
+}
+
+/* A, B deleted (order), C and D on their blocks with the sizes exchanged; policy: which freed block the first request receives */
+static void recycle_swap(int kind, int sa, int sb, int delorder, int policy, int lastA, int firstC, int e1, int e3) {
+  vf_set_cur("typerecycle swap kind=%s sizes=%zu,%zu delorder=%d policy=%d last=%s first=%s ep=%s,%s", rk_name[kind], RSZ[sa], RSZ[sb], delorder, policy, lastA ? "A" : "B", firstC ? "C" : "D", re_name[e1], re_name[e3]);
+  if (re_filter()) return;
+  vf_watchdog(60);
+  var A = re_mktype(re_tnames[0], kind, sa, 0); AUX = A;
+  var B = re_mktype(re_tnames[1], kind, sb, 0); AUX2 = B;
+  if (lastA) { re_objects_of(B, RSZ[sb], e1, 0, 0, "first-type", 0); re_objects_of(A, RSZ[sa], e1, 0, 0, "first-type", 0); }
+  else       { re_objects_of(A, RSZ[sa], e1, 0, 0, "first-type", 0); re_objects_of(B, RSZ[sb], e1, 0, 0, "first-type", 0); }
+  uintptr_t pa = (uintptr_t)A, pb = (uintptr_t)B;
+  al_stash_policy = policy;
+  if (re_force) { al_arm_reuse(header(A)); al_arm_reuse(header(B)); }
+  AUX = NULL; AUX2 = NULL;
+  if (delorder) { del_raw(B); del_raw(A); } else { del_raw(A); del_raw(B); }
+  /* the sizes are exchanged: the type created on A's block gets B's size and the other way round.  Which block the first
+     request receives follows from the policy when the interposer hands blocks back; left to the allocator it is a guess
+     (looked at afterwards: a history in which no type got a block of another size did not reach the case) */
+  uintptr_t expect_first = ((policy == 0) == (delorder == 0)) ? pb : pa;
+  int sc = expect_first == pa ? sb : sa, sd = expect_first == pa ? sa : sb;
+  var C = re_mktype(re_tnames[2], kind, sc, 0); AUX = C;
+  var D = re_mktype(re_tnames[3], kind, sd, 0); AUX2 = D;
+  size_t before_c = (uintptr_t)C == pa ? RSZ[sa] : (uintptr_t)C == pb ? RSZ[sb] : (size_t)-1;
+  size_t before_d = (uintptr_t)D == pa ? RSZ[sa] : (uintptr_t)D == pb ? RSZ[sb] : (size_t)-1;
+  int reach = (before_c != (size_t)-1 && before_c != RSZ[sc]) || (before_d != (size_t)-1 && before_d != RSZ[sd]);
+  if (before_c != (size_t)-1) re_same_addr_types++;
+  if (before_d != (size_t)-1) re_same_addr_types++;
+  const char* dc = before_c == (size_t)-1 ? "address-not-reused" : re_dir(before_c, RSZ[sc]);
+  const char* dd = before_d == (size_t)-1 ? "address-not-reused" : re_dir(before_d, RSZ[sd]);
+  if (firstC) { re_objects_of(C, RSZ[sc], e3, 1, before_c != (size_t)-1, dc, 0); re_objects_of(D, RSZ[sd], e3, 1, 0, dd, 1); }
+  else        { re_objects_of(D, RSZ[sd], e3, 1, before_d != (size_t)-1, dd, 0); re_objects_of(C, RSZ[sc], e3, 1, 0, dc, 1); }
+  AUX = NULL; AUX2 = NULL;
+  del_raw(C); del_raw(D);
+  al_reuse_reset(); al_stash_policy = 0;
+  char key[128]; snprintf(key, sizeof key, "re/swap/%s/%s/%s/%d%d%d%d", rk_name[kind], re_name[e1], re_name[e3], delorder, policy, lastA, firstC);
+  re_count(reach, key);
+}
+
+static void enumerate_recycle(void) {
+  int thorough = strcmp(vf.tier, "thorough") == 0 || vf.replay != NULL;      /* the thorough grid contains the quick one */
+  vf.phase = "recycle";
+  re_force = (int)vf_param_i("force", 1);
+  re_setup();
+#ifndef VF_ASAN
+  al_pad = 1024;           /* see vf_alloc.h: an overrun of a block that was requested too small must not end the exploration */
+#endif
+  /* two types in a row: every ordered pair of different sizes x first entry points x type kind x how the types are managed */
+  for (int kind = 0; kind < NRK; kind++) for (int mg = 0; mg < 3; mg++)
+    for (int s1 = 0; s1 < NRSZ; s1++) for (int s2 = 0; s2 < NRSZ; s2++) {
+      if (s1 == s2) continue;
+      for (int e1 = 0; e1 < NRE; e1++) for (int e2 = 0; e2 < NRE; e2++) for (int all = 0; all < 2; all++) {
+        int si[2] = { s1, s2 }, ep[2] = { e1, e2 };
+        recycle_chain(kind, mg, 2, si, ep, all);
+      }
+    }
+  /* three in a row */
+  for (int kind = 0; kind < NRK; kind++)
+    for (int s1 = 0; s1 < NRSZ; s1++) for (int s2 = 0; s2 < NRSZ; s2++) for (int s3 = 0; s3 < NRSZ; s3++) {
+      if (s1 == s2 || s2 == s3) continue;
+      for (int e1 = 0; e1 < NRE; e1++) for (int e2 = 0; e2 < NRE; e2++) for (int k3 = 0; k3 < (thorough ? NRE : 1); k3++) for (int mg = 0; mg < (thorough ? 3 : 1); mg++) {
+        int si[3] = { s1, s2, s3 }, ep[3] = { e1, e2, thorough ? k3 : (e1 + e2 + 1) % NRE };
+        recycle_chain(kind, thorough ? mg : (e1 + e2) % 3, 3, si, ep, (e1 ^ e2) & 1);
+      }
+    }
+  /* a live neighbour type */
+  for (int kind = 0; kind < NRK; kind++)
+    for (int sa = 0; sa < NRSZ; sa++) for (int sc = 0; sc < NRSZ; sc++) {
+      if (sa == sc) continue;
+      for (int sbk = 0; sbk < 2; sbk++) for (int e1 = 0; e1 < NRE; e1++) for (int e3 = 0; e3 < NRE; e3++) for (int pat = 0; pat < 3; pat++) {
+        if (!thorough && ((e1 + e3 + pat) % 2) && kind) continue;
+        recycle_live(kind, sa, sbk ? sc : (sa + 2) % NRSZ, sc, e1, e3, pat);
+      }
+    }
+  /* two blocks, sizes exchanged */
+  for (int kind = 0; kind < NRK; kind++)
+    for (int sa = 0; sa < NRSZ; sa++) for (int sb = 0; sb < NRSZ; sb++) {
+      if (sa == sb) continue;
+      for (int bits = 0; bits < 16; bits++) for (int e1 = 0; e1 < NRE; e1++) for (int k3 = 0; k3 < (thorough ? NRE : 2); k3++) {
+        int e3 = thorough ? k3 : k3 == 0 ? e1 : (e1 + 3) % NRE;
+        recycle_swap(kind, sa, sb, bits & 1, (bits >> 1) & 1, (bits >> 2) & 1, (bits >> 3) & 1, e1, e3);
+      }
+    }
+  vf_extra("recycle_histories", "%" PRIu64, re_cases);
+  vf_extra("recycle_reached_type_on_the_address_of_a_deleted_type_of_another_size", "%" PRIu64, re_reached);
+  vf_extra("recycle_not_reached", "%" PRIu64, re_not_reached);
+  vf_extra("recycle_types_created_on_a_recycled_address", "%" PRIu64, re_same_addr_types);
+  vf_extra("recycle_blocks_handed_back_by_the_interposer", "%" PRIu64, al_reuse_forced);
+  vf_extra("recycle_objects_judged", "%" PRIu64, re_objects);
+  vf_extra("recycle_copy_of_size0_refused", "%" PRIu64, re_copy_unavailable);
+  vf_extra("recycle_requested_size_unknown", "%" PRIu64, re_req_unknown);
+  vf_extra("recycle_constructor_calls", "%" PRIu64, re_ctor);
+  vf_extra("recycle_constructor_fill_skipped", "%" PRIu64, re_ctor_skipped);
+  vf_extra("recycle_destructor_calls", "%" PRIu64, re_dtor);
+  if (re_req_unknown) { vf.exhaustive = 0; vf_note("%" PRIu64 " heap objects whose block request the interposer did not see: the requested-size oracle did not apply to them", re_req_unknown); }
+  al_pad = 0;
+  if (re_cases && !re_reached) vf_note("no new type ever received the address of a deleted one: the recycle part established nothing in this instance");
+  else if (re_not_reached) vf_note("recycle: %" PRIu64 " of %" PRIu64 " histories did not put a type on the address of a deleted type of another size and are not counted as executions", re_not_reached, re_cases);
+}
+
 static void add_static(var o, const char* nm) { STATICS[nstatics] = o; static_names[nstatics] = nm; nstatics++; }
 
 int main(int argc, char** argv) {
@@ -1555,6 +1902,10 @@ int main(int argc, char** argv) {
     enumerate_stackops();
     vf_finish();
   }
+  if (vf.replay && strncmp(vf.replay, "typerecycle ", 12) == 0) {
+    enumerate_recycle();
+    vf_finish();
+  }
   if (vf.replay) {
     char sn[64], tn[64], on[64]; int v = 0;
     if (sscanf(vf.replay, "src=%63s type=%63s var=%d op=%63s", sn, tn, &v, on) == 4) {
@@ -1569,6 +1920,7 @@ int main(int argc, char** argv) {
 
   if (!vf_param_is("part", "stackops", "all")) enumerate_all();
   if (part_is("stackops")) enumerate_stackops();
+  if (part_is("recycle")) enumerate_recycle();
 
   vf_extra("stackops_refused_unchanged", "%" PRIu64, so_refused);
   vf_extra("stackops_returned_unchanged", "%" PRIu64, so_noop);
